@@ -49,9 +49,61 @@ def random_schedule(rng, tid, nprocs):
             "src": "random-%d" % nprocs}
 
 
+def apalache_inductive(c, out):
+    """(A2) spec/apalache/CacheInd.tla: the safety half of P19 as an INDUCTIVE invariant of DatasetCache.tla (the module TLC
+    explores and Trace_Cache reuses), discharged by Apalache for a larger population than TLC can enumerate (quick: 4 loaders +
+    1 probe, 2 datasets; thorough: 8 + 2, 3 datasets), any depth, any network behaviour, n_retries 0..3: base case, inductive
+    step, and a negative control (the invariant without the facts about the dump / rename boundaries must NOT be inductive,
+    otherwise the step check is vacuous).  A failed base / step or a passing control is a fault of the specification (exit 2);
+    a run that does not finish in time decides nothing and is recorded as such.  Nothing here speaks about the code."""
+    import os
+    import shutil
+    import subprocess
+    import time
+    from vlib import SPEC
+    if not shutil.which("apalache-mc"):
+        out.append({"status": "apalache-mc not installed"})
+        return
+    wd = c.scratch.path("apalache")
+    os.makedirs(wd, exist_ok=True)
+    shutil.copy(os.path.join(SPEC, "DatasetCache.tla"), wd)
+    shutil.copy(os.path.join(SPEC, "apalache", "CacheInd.tla"), wd)
+    cinit = "ConstInit" if c.thorough else "ConstInitQuick"
+    jobs = [("base", "BaseInit", "IndInv", 0, False), ("step", "IndInit", "IndInv", 1, False), ("control", "IndInitWeak", "IndInvWeak", 1, True)]
+
+    def one(job):
+        name, init, inv, length, expect_error = job
+        t0 = time.time()
+        try:
+            p = subprocess.run(["apalache-mc", "check", "--cinit=" + cinit, "--init=" + init, "--inv=" + inv, "--length=%d" % length,
+                                "--out-dir=" + os.path.join(wd, "out-" + name), "CacheInd.tla"], cwd=wd, stdout=subprocess.PIPE,
+                               stderr=subprocess.STDOUT, timeout=1500 if c.thorough else 420, text=True, errors="replace")
+            txt = p.stdout
+        except subprocess.TimeoutExpired:
+            return {"obligation": name, "population": cinit, "status": "timeout (decides nothing)"}
+        ok = "EXITCODE: OK" in txt and "The outcome is: NoError" in txt
+        err = "The outcome is: Error" in txt
+        if not ok and not err:
+            return {"obligation": name, "population": cinit, "status": "did not run: " + " ".join(txt.split()[-12:])}
+        if expect_error != err:
+            return {"obligation": name, "population": cinit, "fault": True,
+                    "status": "the weakened invariant is inductive: the step check is vacuous" if expect_error
+                    else "NOT discharged - the specification's invariant is not inductive:\n" + txt[-1200:]}
+        return {"obligation": name, "population": cinit, "init": init, "invariant": inv, "length": length, "wall_s": round(time.time() - t0, 1),
+                "status": "counterexample found, as required of the control" if err else "discharged"}
+    from concurrent.futures import ThreadPoolExecutor
+    with ThreadPoolExecutor(3) as ex:
+        out.extend(ex.map(one, jobs))
+
+
 def run():
     c = Check("C19")
     rng = c.rng
+    import threading
+    apalache = []
+    apa_thread = threading.Thread(target=apalache_inductive, args=(c, apalache))
+    if not c.replay_path:
+        apa_thread.start()
     registry = cachelib.extract_registry()                 # for the registry-level ordered pairs
     cachelib.WORLD = cachelib.World(registry)
     live = [r["name"] for r in registry if r["kind"] == "remote" and r["call"]["resolves"] and r["call"]["loader"] == "remote"]
@@ -168,6 +220,11 @@ def run():
         c.negs.extend(t)
         ntid += 1
 
+    if not c.replay_path:
+        apa_thread.join()
+        for a in apalache:
+            if a.get("fault"):
+                raise MachineryError("Apalache, obligation %s: %s" % (a["obligation"], a["status"]))
     c.rule = ("a case = one behaviour (arguments of every load, initial cache, outcome sequence per URL, schedule with "
               "crash points) replayed into real forked gated loaders; behaviours come from the TLC state graphs "
               "(transition cover + seeded walks), TLC -simulate and seeded random schedules for 2..16 processes; every "
@@ -177,7 +234,8 @@ def run():
     c.coverage_extra = {"traces_validated_against_impl": ntr, "evaluations": ntr, "events_judged": len(c.events),
                         "behaviours_by_source": by_src, "transition_cover": cover_stats,
                         "models_wall_s": round(t_models, 1), "replay_wall_s": round(t_replay, 1),
-                        "traces_with_crash": ncrash, "traces_with_network_fault": nfault}
+                        "traces_with_crash": ncrash, "traces_with_network_fault": nfault,
+                        "apalache_inductive_invariant": apalache}
     c.assumptions = ["TLC 1.8 and CommunityModules Json/IOUtils/TLCExt",
                      "Linux fork / SIGKILL / rename semantics on the scratch file system (/verif/.scratch)",
                      "step boundaries are the patched module-level names of traffic_weaver.datasets._base "
